@@ -17,6 +17,9 @@
 //            source channel of a colour at its position in the source layout and writes the expected sum at that
 //            colour's position in the destination layout (pixel_multiplies_scalar_t, pixel_assigns_t, pixel_plus_t,
 //            pixel_zeros_t are all reached with differing layouts by one of the combinations).
+// PART 10..13: accumulator pixel type == source == destination pixel type (gray8 [modulo 256], gray32s, gray32f, rgb32f
+//            with a float accumulator), each run out of place and IN PLACE (the same view as source and destination):
+//            every output must be the sum over the input pixels as they were before the call.
 // PART 9: convolve_2d for mixed channel orders (bgr8 -> rgb32f, rgba8 -> abgr32f, planar rgb8 -> bgr32f)
 #include <boost/gil.hpp>
 #include <boost/gil/image_processing/convolve.hpp>
@@ -33,6 +36,9 @@ using gil::boundary_option;
 #ifndef C15_PART
 #define C15_PART 0
 #endif
+#ifndef C15_G32F_ACCUM
+#define C15_G32F_ACCUM gil::gray32f_pixel_t
+#endif
 
 // ---- regimes --------------------------------------------------------------------------
 struct R_g8i {
@@ -42,6 +48,7 @@ struct R_g8i {
     typedef int kval;
     static const char* name() { return "g8.i32"; }
     static const bool exact = true;
+    static const int modulus = 0;
     static double gen_src(vh::rng& r) { return (double)r.below(256); }
     static kval gen_k(vh::rng& r) { return r.range(-4, 4); }
 };
@@ -52,6 +59,7 @@ struct R_g16si {   // signed source values
     typedef int kval;
     static const char* name() { return "g16s.i32"; }
     static const bool exact = true;
+    static const int modulus = 0;
     static double gen_src(vh::rng& r) { return (double)r.range(-32768, 32767); }
     static kval gen_k(vh::rng& r) { return r.range(-4, 4); }
 };
@@ -62,6 +70,7 @@ struct R_rgb8f {
     typedef float kval;
     static const char* name() { return "rgb8.f32"; }
     static const bool exact = true;
+    static const int modulus = 0;
     static double gen_src(vh::rng& r) { return (double)r.below(256); }
     static kval gen_k(vh::rng& r) { return (float)r.range(-4, 4); }
 };
@@ -72,8 +81,55 @@ struct R_g32f {
     typedef float kval;
     static const char* name() { return "g32f.f32"; }
     static const bool exact = false;
+    static const int modulus = 0;
     static double gen_src(vh::rng& r) { return (double)(float)r.unit(); }
     static kval gen_k(vh::rng& r) { return (float)(r.unit() * 2.0 - 1.0); }
+};
+
+// accumulator pixel type == source pixel type == destination pixel type (run out of place and in place)
+struct R_same_g8 {     // uint8 accumulator: the sums are taken modulo 256
+    typedef gil::gray8_image_t src_image;
+    typedef gil::gray8_pixel_t dst_pixel;
+    typedef gil::gray8_pixel_t accum;
+    typedef int kval;
+    static const char* name() { return "g8.acc-g8"; }
+    static const bool exact = true;
+    static const int modulus = 256;
+    static double gen_src(vh::rng& r) { return (double)r.below(256); }
+    static kval gen_k(vh::rng& r) { return r.range(-4, 4); }
+};
+struct R_same_g32s {
+    typedef gil::gray32s_image_t src_image;
+    typedef gil::gray32s_pixel_t dst_pixel;
+    typedef gil::gray32s_pixel_t accum;
+    typedef int kval;
+    static const char* name() { return "g32s.acc-g32s"; }
+    static const bool exact = true;
+    static const int modulus = 0;
+    static double gen_src(vh::rng& r) { return (double)r.range(-255, 255); }
+    static kval gen_k(vh::rng& r) { return r.range(-4, 4); }
+};
+struct R_same_g32f {   // fractional taps, tolerance
+    typedef gil::gray32f_image_t src_image;
+    typedef gil::gray32f_pixel_t dst_pixel;
+    typedef C15_G32F_ACCUM accum;
+    typedef float kval;
+    static const char* name() { return "g32f.acc-g32f"; }
+    static const bool exact = false;
+    static const int modulus = 0;
+    static double gen_src(vh::rng& r) { return (double)(float)r.unit(); }
+    static kval gen_k(vh::rng& r) { return (float)(r.unit() * 2.0 - 1.0); }
+};
+struct R_same_rgb32f { // integer-valued contents and taps: exact
+    typedef gil::rgb32f_image_t src_image;
+    typedef gil::rgb32f_pixel_t dst_pixel;
+    typedef gil::pixel<float, gil::rgb_layout_t> accum;
+    typedef float kval;
+    static const char* name() { return "rgb32f.acc-f32"; }
+    static const bool exact = true;
+    static const int modulus = 0;
+    static double gen_src(vh::rng& r) { return (double)r.below(256); }
+    static kval gen_k(vh::rng& r) { return (float)r.range(-4, 4); }
 };
 
 // mixed channel orders: integer-valued float taps, exact
@@ -85,6 +141,7 @@ struct R_g32f {
         typedef float kval;                                                               \
         static const char* name() { return TAG; }                                         \
         static const bool exact = true;                                                   \
+        static const int modulus = 0;                                                     \
         static double gen_src(vh::rng& r) { return (double)r.below(256); }                \
         static kval gen_k(vh::rng& r) { return (float)r.range(-4, 4); }                   \
     };
@@ -149,67 +206,65 @@ void call_fixed_n(int fn, SV const& s, std::vector<typename R::kval> const& kv, 
     call_fixed<R>(fn, s, k, d, o);
 }
 
-// One checked execution: regime R, function fn, option, w x h source, kernel values kv with the given centre.
-// Returns false when a violation was reported.
-template <class R> void one_exec(int fn, boundary_option opt, int w, int h, std::vector<typename R::kval> const& kv, int centre,
-                                 vh::rng& r, std::string const& cls, bool first_rep) {
-    typedef typename R::src_image src_image;
-    typedef typename src_image::value_type src_pixel;
-    const int NC = gil::num_channels<src_pixel>::value;
-    const bool cols = fn & 1, conv = fn & 2, fixed = fn & 4;
-    const int n = (int)kv.size();
-    // samples needed before / after the output position along the axis
-    const int before = conv ? n - 1 - centre : centre;
-    const int after = conv ? centre : n - 1 - centre;
-    const int len = cols ? h : w;      // extent along the kernel axis
-    const bool padded = opt == boundary_option::extend_padded;
-    const int pb = padded ? before : 0, pa = padded ? after : 0;
-    // outer source image: exactly the declared padding around the w x h source, nothing more
-    src_image outer(cols ? w : w + pb + pa, cols ? h + pb + pa : h);
-    fill_src(outer, r, &R::gen_src);
-    const int ox = cols ? 0 : pb, oy = cols ? pb : 0;
-    auto sv = gil::subimage_view(gil::const_view(outer), ox, oy, w, h);
-    std::vector<double> src_snap = values_of(gil::const_view(outer));
-    const std::vector<int> sp = phys_of_colour<src_pixel>(), dp = phys_of_colour<typename R::dst_pixel>();   // colour -> memory position
+// geometry of one execution
+struct geom {
+    int fn, w, h, n, centre, before, after, len, pb, pa;
+    bool cols, conv, fixed, padded;
+    boundary_option opt;
+    geom(int fn_, boundary_option opt_, int w_, int h_, int n_, int centre_) : fn(fn_), w(w_), h(h_), n(n_), centre(centre_), opt(opt_) {
+        cols = fn & 1; conv = fn & 2; fixed = fn & 4;
+        before = conv ? n - 1 - centre : centre;      // samples needed before / after the output position along the axis
+        after = conv ? centre : n - 1 - centre;
+        len = cols ? h : w;                           // extent along the kernel axis
+        padded = opt == boundary_option::extend_padded;
+        pb = padded ? before : 0; pa = padded ? after : 0;
+    }
+};
 
-    cu::arena<typename R::dst_pixel> ar(w, h, r);
-    auto dv = ar.dst();
-
-    // ---- the real thing
-    if (!fixed) {
-        gil::kernel_1d<typename R::kval> k(kv.begin(), (std::size_t)n, (std::size_t)centre);
-        call_dyn<R>(fn, sv, k, dv, opt);
+// the real thing
+template <class R, class SV, class DV>
+void invoke(geom const& g, SV const& sv, DV const& dv, std::vector<typename R::kval> const& kv) {
+    if (!g.fixed) {
+        gil::kernel_1d<typename R::kval> k(kv.begin(), (std::size_t)g.n, (std::size_t)g.centre);
+        call_dyn<R>(g.fn, sv, k, dv, g.opt);
     } else {
-        switch (n) {
-            case 1: call_fixed_n<R, 1>(fn, sv, kv, centre, dv, opt); break;
-            case 3: call_fixed_n<R, 3>(fn, sv, kv, centre, dv, opt); break;
-            case 5: call_fixed_n<R, 5>(fn, sv, kv, centre, dv, opt); break;
-            case 7: call_fixed_n<R, 7>(fn, sv, kv, centre, dv, opt); break;
+        switch (g.n) {
+            case 1: call_fixed_n<R, 1>(g.fn, sv, kv, g.centre, dv, g.opt); break;
+            case 3: call_fixed_n<R, 3>(g.fn, sv, kv, g.centre, dv, g.opt); break;
+            case 5: call_fixed_n<R, 5>(g.fn, sv, kv, g.centre, dv, g.opt); break;
+            case 7: call_fixed_n<R, 7>(g.fn, sv, kv, g.centre, dv, g.opt); break;
             default: vh::fatal_monitor("harness", "unsupported fixed size");
         }
     }
+}
 
-    // ---- the oracle
-    auto ov = gil::const_view(outer);
+// the oracle: ov = view of the (copy of the) source *as it was before the call*, with the w x h source at (ox,oy)
+template <class R, class OV>
+void judge(geom const& g, OV const& ov, int ox, int oy, cu::arena<typename R::dst_pixel>& ar, std::vector<typename R::kval> const& kv,
+           std::string const& cls, bool first_rep) {
+    typedef typename R::src_image::value_type src_pixel;
+    const int NC = gil::num_channels<src_pixel>::value;
+    const std::vector<int> sp = phys_of_colour<src_pixel>(), dp = phys_of_colour<typename R::dst_pixel>();   // colour -> memory position
+    const int w = g.w, h = g.h, n = g.n, len = g.len;
+    const boundary_option opt = g.opt;
     double sumabs = 0, maxabs = 0;
     for (int k = 0; k < n; ++k) sumabs += std::fabs((double)kv[k]);
-    // sample at axis position i (may be outside [0,len)), across position j, channel c
-    auto sample = [&](int i, int j, int c, bool& outside) -> double {
-        outside = i < 0 || i >= len;
-        if (outside) {
+    // sample at axis position i (may be outside [0,len)), across position j, colour c
+    auto sample = [&](int i, int j, int c) -> double {
+        if (i < 0 || i >= len) {
             if (opt == boundary_option::extend_zero) return 0.0;
             if (opt == boundary_option::extend_constant) i = i < 0 ? 0 : len - 1;
             // extend_padded: the caller's padding, read from the outer image
             // output_*: never used (the pixel is a border pixel)
         }
-        int x = cols ? j : i, y = cols ? i : j;
-        return cu::num(ov(ox + x, oy + y)[sp[(size_t)c]]);      // c is a colour index
+        int x = g.cols ? j : i, y = g.cols ? i : j;
+        return cu::num(ov(ox + x, oy + y)[sp[(size_t)c]]);
     };
     const bool out_opt = opt == boundary_option::output_ignore || opt == boundary_option::output_zero;
     for (int y = 0; y < h; ++y)
         for (int x = 0; x < w; ++x) {
-            int i = cols ? y : x, j = cols ? x : y;
-            bool leaves = (i - before < 0) || (i + after >= len);
+            int i = g.cols ? y : x, j = g.cols ? x : y;
+            bool leaves = (i - g.before < 0) || (i + g.after >= len);
             if (out_opt && leaves) {
                 if (opt == boundary_option::output_zero)
                     for (int c = 0; c < NC; ++c) ar.set(x, y, c, 0.0, cu::K_B);
@@ -220,31 +275,65 @@ template <class R> void one_exec(int fn, boundary_option opt, int w, int h, std:
             for (int c = 0; c < NC; ++c) {
                 double acc = 0;
                 for (int k = 0; k < n; ++k) {
-                    int off = conv ? centre - k : k - centre;
-                    bool outside;
-                    double s = sample(i + off, j, c, outside);
+                    int off = g.conv ? g.centre - k : k - g.centre;
+                    double s = sample(i + off, j, c);
                     maxabs = std::max(maxabs, std::fabs(s));
                     acc += s * (double)kv[k];
                 }
+                if (R::modulus) { acc = std::fmod(acc, (double)R::modulus); if (acc < 0) acc += R::modulus; }   // unsigned accumulator: arithmetic modulo 2^bits
                 ar.set(x, y, dp[(size_t)c], acc, leaves ? cu::K_B : cu::K_A);
             }
         }
     double tol = R::exact ? 0.0 : 1e-5 * sumabs * std::max(maxabs, 1.0) + 1e-12;
     cu::cmp_result res = ar.compare(tol);
     const char* szc = n == 1 ? "k1" : (len < n ? "narrow" : "wide");
-    std::string ctx = vh::cat(fnname(fn), " ", cu::optname(opt), " ", w, "x", h, " kernel size ", n, " centre ", centre, ": ");
+    std::string ctx = vh::cat(fnname(g.fn), " ", cu::optname(opt), " ", w, "x", h, " kernel size ", n, " centre ", g.centre, ": ");
     if (res.outside_bad) vh::viol(vh::cat("outside-dst.", cls, ".", szc), ctx + res.first_outside);
     if (res.bad[cu::K_A]) vh::viol(vh::cat("interior-sum.", cls, ".", szc), ctx + res.first[cu::K_A]);
     if (res.bad[cu::K_B]) vh::viol(vh::cat("edge-value.", cls, ".", szc), ctx + res.first[cu::K_B]);
     if (res.bad[cu::K_UNTOUCHED]) vh::viol(vh::cat("untouched.", cls, ".", szc), ctx + res.first[cu::K_UNTOUCHED]);
-    if (values_of(gil::const_view(outer)) != src_snap) vh::viol(vh::cat("src-modified.", cls), ctx + "source values changed");
     vh::evals(1);
     if (first_rep) vh::distinct(1);      // repetitions differ only in seeded contents: not counted as distinct tuples
     vh::count("dst_pixels_checked", (uint64_t)res.checked);
-    vh::obs(vh::cat(fnname(fn), ".", cu::optname(opt), ".", szc));
+    vh::obs(vh::cat(fnname(g.fn), ".", cu::optname(opt), ".", szc));
 }
 
-template <class R> void run_1d() {
+// One checked execution, source and destination distinct: regime R, function fn, option, w x h source, kernel kv / centre.
+template <class R> void one_exec(int fn, boundary_option opt, int w, int h, std::vector<typename R::kval> const& kv, int centre,
+                                 vh::rng& r, std::string const& cls, bool first_rep, std::false_type /*in place*/) {
+    typedef typename R::src_image src_image;
+    geom g(fn, opt, w, h, (int)kv.size(), centre);
+    // outer source image: exactly the declared padding around the w x h source, nothing more
+    src_image outer(g.cols ? w : w + g.pb + g.pa, g.cols ? h + g.pb + g.pa : h);
+    fill_src(outer, r, &R::gen_src);
+    const int ox = g.cols ? 0 : g.pb, oy = g.cols ? g.pb : 0;
+    auto sv = gil::subimage_view(gil::const_view(outer), ox, oy, w, h);
+    std::vector<double> src_snap = values_of(gil::const_view(outer));
+    cu::arena<typename R::dst_pixel> ar(w, h, r);
+    invoke<R>(g, sv, ar.dst(), kv);
+    judge<R>(g, gil::const_view(outer), ox, oy, ar, kv, cls, first_rep);
+    if (values_of(gil::const_view(outer)) != src_snap) vh::viol(vh::cat("src-modified.", cls), vh::cat(fnname(fn), " ", cu::optname(opt), " ", w, "x", h, ": source values changed"));
+}
+// In place: the very same view is source and destination (as detail::convolve_1d, box_filter and the separable filters do
+// for their second pass).  Every output must still be the sum over the *input* pixels, i.e. equal the out-of-place result.
+// The view is the interior of an arena that is filled with valid source values (the margins double as the declared
+// padding for extend_padded); the oracle reads a copy taken before the call.
+template <class R> void one_exec(int fn, boundary_option opt, int w, int h, std::vector<typename R::kval> const& kv, int centre,
+                                 vh::rng& r, std::string const& cls, bool first_rep, std::true_type /*in place*/) {
+    typedef typename R::src_image src_image;
+    static_assert(std::is_same<typename src_image::value_type, typename R::dst_pixel>::value, "in-place needs one pixel type");
+    geom g(fn, opt, w, h, (int)kv.size(), centre);
+    const int m = 2 + std::max(g.pb, g.pa);
+    cu::arena<typename R::dst_pixel> ar(w, h, r, m, m);
+    fill_src(ar.real, r, &R::gen_src);
+    memcpy(cu::raw(gil::view(ar.model)), cu::raw(gil::view(ar.real)), cu::raw_size(gil::view(ar.real)));
+    src_image before(ar.real);          // deep copy: the input as the oracle must see it
+    auto v = ar.dst();
+    invoke<R>(g, v, v, kv);
+    judge<R>(g, gil::const_view(before), m, m, ar, kv, cls, first_rep);
+}
+
+template <class R, bool InPlace = false> void run_1d() {
     const int maxlen = vh::thorough() ? 16 : 9;       // extent along the kernel axis
     const int maxacross = vh::thorough() ? 6 : 4;
     const int maxk = vh::thorough() ? 11 : 7;
@@ -252,7 +341,7 @@ template <class R> void run_1d() {
     for (int fn = 0; fn < 8; ++fn)
         for (int oi = 0; oi < 5; ++oi) {
             boundary_option opt = ALL_OPTS[oi];
-            std::string cls = vh::cat(R::name(), ".", fnname(fn), ".", cu::optname(opt));
+            std::string cls = vh::cat(R::name(), InPlace ? ".inplace." : ".", fnname(fn), ".", cu::optname(opt));
             const bool cols = fn & 1, fixed = fn & 4;
             for (int len = 0; len <= maxlen; ++len)
                 for (int across = 0; across <= maxacross; ++across) {
@@ -261,7 +350,7 @@ template <class R> void run_1d() {
                     vh::rng r = vh::case_rng();
                     if (fn == 0 && oi == 3 && len == 5 && across == 2)
                         vh::sample(vh::cat(R::name(), ": ", fnname(fn), "<accum>(", w, "x", h, " src, kernel of every size 1..", maxk,
-                                           " with every centre, dst in noise arena, ", cu::optname(opt), ") == sum_k src(i+k-c)*kernel(k)"));
+                                           " with every centre, ", InPlace ? "dst == src (in place)" : "dst in noise arena", ", ", cu::optname(opt), ") == sum_k src(i+k-c)*kernel(k)"));
                     for (int rep = 0; rep < reps; ++rep)
                     for (int n = 1; n <= (fixed ? 7 : maxk); n += (fixed ? 2 : 1))
                         for (int centre = 0; centre < n; ++centre) {
@@ -270,7 +359,7 @@ template <class R> void run_1d() {
                             // make sure both ends of the kernel matter (a zero tap hides an index error)
                             if (kv[0] == 0) kv[0] = (typename R::kval)1;
                             if (kv[n - 1] == 0) kv[n - 1] = (typename R::kval)-2;
-                            one_exec<R>(fn, opt, w, h, kv, centre, r, cls, rep == 0);
+                            one_exec<R>(fn, opt, w, h, kv, centre, r, cls, rep == 0, std::integral_constant<bool, InPlace>());
                         }
                 }
         }
@@ -441,6 +530,18 @@ int main(int argc, char** argv) {
     run_1d<R_rgba_abgr>();
 #elif C15_PART == 8
     run_1d<R_planar_bgr>();
+#elif C15_PART == 10   // accumulator type == pixel type, out of place and in place
+    run_1d<R_same_g8, false>();
+    run_1d<R_same_g8, true>();
+#elif C15_PART == 11
+    run_1d<R_same_g32s, false>();
+    run_1d<R_same_g32s, true>();
+#elif C15_PART == 12
+    run_1d<R_same_g32f, false>();
+    run_1d<R_same_g32f, true>();
+#elif C15_PART == 13
+    run_1d<R_same_rgb32f, false>();
+    run_1d<R_same_rgb32f, true>();
 #elif C15_PART == 9
     run_conv2d<gil::bgr8_image_t, gil::rgb32f_pixel_t>("bgr8-to-rgb32f");
     run_conv2d<gil::rgba8_image_t, gil::abgr32f_pixel_t>("rgba8-to-abgr32f");
